@@ -280,7 +280,7 @@ func (s *server) ModifyColumnFamilies(ctx context.Context, req *btapb.ModifyColu
 			tbl.rows.Ascend(func(r *btpb.Row) bool {
 				r, changed := scrubRow(r, tbl.cols())
 				if changed {
-					tbl.rows.ReplaceOrInsert(r)
+					tbl.updateRow(r)
 				}
 				return true
 			})
